@@ -12,7 +12,8 @@ EvalF(x, d) ==
   CASE x.k = "none" -> TRUE
     [] x.k = "eq"   -> x.f \in DOMAIN d /\ d[x.f] = x.c
     [] x.k = "ne"   -> x.f \in DOMAIN d /\ d[x.f] # x.c
-    [] x.k = "nz"   -> x.f \in DOMAIN d /\ d[x.f] # "0"          \* int(field): truthy but not a bool
+    [] x.k = "nz"   -> x.f \in DOMAIN d /\ d[x.f] \in {"1", "2"}  \* int(field): truthy but not a bool; a field that is
+                                                              \* not a number makes the filter RAISE: no run for that message
     [] x.k = "and"  -> EvalF(x.l, d) /\ EvalF(x.r, d)
     [] x.k = "or"   -> EvalF(x.l, d) \/ EvalF(x.r, d)
     [] x.k = "not"  -> ~EvalF(x.a, d)
